@@ -1568,7 +1568,7 @@ pub fn generate(kind: &str, seed: u64, count: usize, out: &str) {
         steps.push(obs("rope", 0));
         for _ in 0..3 {
           let k = g.rng.gen_range(0..40);
-          let wk = g.pick(&["err", "zero", "intr", "chunky", "ok"]);
+          let wk = g.pick(&["err", "zero", "intr", "chunky", "ok", "flaky", "flaky", "chunk7"]);
           steps.push(json!({"op": "writer", "r": 0, "kind": wk, "k": k}));
         }
       }
